@@ -32,7 +32,9 @@ def strip_comments(src):
                 if src[j] == '\\':
                     j += 1
                 j += 1
-            out.append('"' + re.sub(r'[^\n]', ' ', src[i + 1:j]) + '"')
+            lit = src[i + 1:j]
+            keep = re.fullmatch(r'[A-Za-z0-9_\-]{1,24}', lit) is not None
+            out.append('"' + (lit if keep else re.sub(r'[^\n]', ' ', lit)) + '"')
             i = j + 1
         elif c == 'r' and re.match(r'r#*"', src[i:i + 6]) and (i == 0 or not (src[i - 1].isalnum() or src[i - 1] == '_')):
             m = re.match(r'r(#*)"', src[i:])
@@ -84,11 +86,29 @@ def _split_top(s):
     return out
 
 
+ENABLED_FEATURES = {'default', 'macros'}
+
+
 def _strip_attrs(s):
+    """Strip leading attributes; return '' if a #[cfg(feature = "x")] disables the item
+    (string literals were blanked by strip_comments, so the feature name is read from the raw text)."""
     s = s.strip()
     while s.startswith('#'):
         k = s.index('[')
         j = _match(s, k, '[', ']')
+        attr = s[k + 1:j]
+        m = re.match(r'\s*cfg\s*\((.*)\)\s*$', attr, re.S)
+        if m:
+            c = m.group(1).strip()
+            neg = False
+            mm = re.match(r'not\s*\((.*)\)\s*$', c, re.S)
+            if mm:
+                neg, c = True, mm.group(1).strip()
+            fm = re.match(r'feature\s*=\s*"([^"]*)"', c)
+            if fm:
+                on = fm.group(1) in ENABLED_FEATURES
+                if on == neg:
+                    return ''
         s = s[j + 1:].strip()
     return s
 
@@ -197,6 +217,21 @@ class Tables:
                 trait = h[:fm.start()].strip()
                 h = h[fm.end():].strip()
             self.impls[(rel, line)] = (_last_ident(h), _last_ident(trait) if trait else None)
+        # derive-generated impls are named by the location of the trait ident inside #[derive(..)]
+        for m in re.finditer(r'#\s*\[\s*derive\s*\(', src):
+            k = m.end() - 1
+            e = _match(src, k, '(', ')')
+            if e == -1:
+                continue
+            # the item the attribute is attached to
+            tm = re.compile(r'\b(?:struct|enum|union)\s+([A-Za-z_]\w*)').search(src, e)
+            if not tm:
+                continue
+            for im in re.finditer(r'[A-Za-z_][\w:]*', src[k + 1:e]):
+                pos = k + 1 + im.start()
+                line = src.count('\n', 0, pos) + 1
+                col = pos - src.rfind('\n', 0, pos)
+                self.impls[(rel, line, col)] = (tm.group(1), im.group(0).split('::')[-1])
 
     @staticmethod
     def _pick(decls, hint):
